@@ -64,4 +64,40 @@ PROPS = {
         ],
         "partial": ["agreement with the walk is proved for chains of <= 9 hops without shadowing; the unrestricted statement is refuted (4 witnesses)"],
     },
+    "C20": {
+        "harness": "c20",
+        "props_file": "Props/C20.v",
+        "run_module": "Model.Text Model.RunC20",
+        "run_fn": "run_c20",
+        "pinned_theorems": ["C20_original_bytes", "C20_text_is_decoding", "C20_unchanged_iff", "C20_bom_only_iff",
+                            "C20_changed_iff", "C20_size", "C20_undecodable", "C20_text_valid",
+                            "C20_charset_header_wins", "C20_charset_remote_default", "C20_charset_file_sniff",
+                            "C20_valid_utf8_iff", "C20_utf8_roundtrip", "C20_utf16_roundtrip",
+                            "C20_holdsb_correct", "C20_model_holds"],
+        "rule": ("one case = one byte string served to the REAL code under every combination of content-type header "
+                 "x scheme (file:, https:) x media (ts, js, json) x route (public parse_module; real graph build "
+                 "whose loader serves bytes + headers, JSON via `with {type: json}`), 132-696 combinations per case "
+                 "(coverage.distribution.combinations = total). Byte strings: ALL strings of length <= 3 (quick) / "
+                 "<= 4 (thorough) over {00,0A,41,7F,80,BF,C2,E0,ED,EF,BB,F0,F4,FE,FF} with 11 header shapes (none, "
+                 "media only, utf-8, UTF-8, utf8, utf-16le, utf-16be, windows-1252, bogus, charset= in 2nd/3rd "
+                 "position with spaces); ALL strings of length <= 2 (quick) / <= 3 (thorough) over that alphabet + "
+                 "{D8,DC,9F,A0,8F,90,1B} with 58 header shapes (every UTF-8/UTF-16 label of encoding_rs, quoted, "
+                 "empty, upper-case parameter name, Unicode white space, legacy encodings, replacement, "
+                 "iso-2022-jp, unsupported media type); then 3000 (quick) / 100000 (thorough) structured or "
+                 "random strings from one SplitMix64 state (valid UTF-8 with/without BOM, double BOM, UTF-16LE/BE "
+                 "with right/wrong/no BOM, lone surrogates, odd length, overlong/surrogate/out-of-range/truncated "
+                 "UTF-8, gb18030 BOM, ESC sequences, truncations) with 8 random header shapes each. Compared per "
+                 "combination: header charset seen by the real resolver, error-vs-module, stored text bytes, "
+                 "decoded kind, try_get_original_bytes(), size(), serialised size; the real observation is "
+                 "also judged by the extracted decision procedure (C20_holdsb_correct). non-trivial = non-empty "
+                 "byte string whose combinations show >= 2 different (outcome, kind) pairs; distinct = distinct "
+                 "model input"),
+        "assumptions": [
+            "labels other than the UTF-8/UTF-16LE/UTF-16BE labels are answered by encoding_rs itself (oracle data: supported?, borrow rule, decoded scalars); the model adds BOM stripping, kind, original bytes, size on top",
+            "media type resolution (extension / content-type media part) is data computed by the real crate",
+            "module sources that do not parse are turned into dependency-free modules by a wrapping ModuleAnalyzer so that their stored text can be observed; texts that still start with U+FEFF are not handed to deno_ast (it panics on them in debug builds)",
+            "serialised size equals the text length below 4 GiB (u32 truncation is modelled, larger texts are not generated)",
+            "the JSR deferred content-fill path (no header charset, https) is not exercised by the correspondence; it calls the same new_source_with_text",
+        ],
+    },
 }
